@@ -438,7 +438,7 @@ pub fn gen_wio(rng: &mut Rng) -> RawCase {
     }
     lines.push("DIM AR%(1 TO 3)".into());
     if rng.chance(1, 2) {
-        lines.push("DATA 1, \"two\", 3.5, -4, abc".into());
+        lines.push("DATA 1, \"two\", 3.5, -4, 7".into());
     }
     let names = ["A.TXT", "B.TXT", "MISSING.TXT", "DIRX", "NODIR/X.TXT", ""];
     let ivars = ["A%", "B&", "C!", "D#", "AR%(1)", "AR%(9)"];
@@ -472,7 +472,8 @@ pub fn gen_wio(rng: &mut Rng) -> RawCase {
             }
             format!("{}({})", f, a.join(", "))
         };
-        let l = match rng.below(58) {
+        let pick = if rng.chance(1, 30) { 40 + rng.below(6) } else { let x = rng.below(52); if x >= 40 { x + 6 } else { x } };
+        let l = match pick {
             // block headers that fail: resuming must not enter the block half way
             50 => format!("FOR {} = 1 TO 1 / Z0%\nPRINT {}\nNEXT", rng.pick(&["A%", "C!"]), i1),
             51 => format!("FOR A% = 1 TO 3 STEP {} / Z0%\nPRINT A%\nIF A% > 5 THEN END\nNEXT", i1),
@@ -558,7 +559,7 @@ pub fn gen_wio(rng: &mut Rng) -> RawCase {
     lines.push("InProc:".into());
     lines.push("Twice = X * 2".into());
     lines.push("END FUNCTION".into());
-    if rng.chance(1, 5) {
+    if rng.chance(1, 10) {
         // module-level code after a procedure that refers to a label of the procedure:
         // the checker must reject it; if it does not, the branch leaves its procedure
         lines.push(
@@ -607,6 +608,102 @@ pub fn gen_wio(rng: &mut Rng) -> RawCase {
         files,
         plan,
         origin: "W-IO generator".into(),
+    }
+}
+
+// ----------------------------------------------------------------------
+// W-REP: typed statement soup over the rest of the repertoire (arrays, records,
+// fixed-length strings, CONST, SHARED, STATIC, parameters of every type, DATA/READ,
+// memory built-ins). Workload mix only: these statements have no fault surface of their
+// own; the oracle is "accepted by the checker => no internal failure".
+// ----------------------------------------------------------------------
+
+pub fn gen_wrep(rng: &mut Rng) -> RawCase {
+    let mut l: Vec<String> = vec![];
+    l.push("TYPE Pt\nX AS INTEGER\nY AS LONG\nN AS STRING * 5\nZ AS SINGLE\nEND TYPE".into());
+    let has_ln = rng.chance(1, 2);
+    if has_ln {
+        l.push("TYPE Ln\nA AS Pt\nB AS Pt\nEND TYPE".into());
+    }
+    l.push("DIM SHARED GS%".into());
+    l.push("DIM SHARED GA$(1 TO 2)".into());
+    l.push("CONST C1 = 5\nCONST CS$ = \"k\"\nCONST CF = 2.5".into());
+    l.push("DIM A1%(1 TO 3), A2$(2, 2), P AS Pt, PA(1 TO 2) AS Pt, FS AS STRING * 4, D1#(-1 TO 1)".into());
+    if has_ln {
+        l.push("DIM L1 AS Ln\nL1.A.X = 3\nL1.B = P".into());
+    }
+    if rng.chance(1, 3) {
+        l.push("DATA 1, 2.5, \"s\", -7, 99999".into());
+    }
+    let handler = rng.chance(1, 2);
+    if handler {
+        l.push("ON ERROR GOTO Hnd".into());
+    } else if rng.chance(1, 3) {
+        l.push("ON ERROR RESUME NEXT".into());
+    }
+    let iv = ["I%", "J&", "S!", "D#", "A1%(1)", "A1%(I%)", "A1%(4)", "P.X", "P.Y", "PA(1).X", "PA(I%).Y", "GS%", "D1#(-1)", "P.Z"];
+    let sv = ["T$", "A2$(1, 2)", "A2$(I%, 0)", "P.N", "PA(2).N", "FS", "GA$(1)", "A2$(3, 3)"];
+    let ie = ["0", "1", "-1", "3", "4", "32767", "-32768", "70000", "2.5", "-0.5", "100000", "C1", "CF", "I%", "J&", "S!", "D#", "A1%(2)", "P.X", "LEN(T$)", "UBOUND(A1%)", "LBOUND(D1#)", "UBOUND(A2$, 2)", "I% MOD 3", "I% AND 5", "NOT I%", "I% OR J&", "-I%", "(I% + 1) * 2", "VAL(T$)", "INSTR(T$, \"a\")", "Fn1%(I%)", "Fn2#(S!, T$)", "VARPTR(I%)", "VARSEG(A1%(1))", "PEEK(VARPTR(I%))", "ERR"];
+    let se = ["\"\"", "\"a\"", "\"hello world\"", "T$", "CS$", "P.N", "FS", "STR$(I%)", "CHR$(65)", "LEFT$(T$, I%)", "MID$(T$, I%, 2)", "RIGHT$(T$, 1)", "UCASE$(T$) + LCASE$(T$)", "SPACE$(I%)", "STRING$(3, \"x\")", "LTRIM$(RTRIM$(T$))", "MKD$(D#)", "Fn3$(T$)", "ENVIRON$(\"HOME\")"];
+    let n = 3 + rng.below(16);
+    for _ in 0..n {
+        let i1 = *rng.pick(&ie);
+        let i2 = *rng.pick(&ie);
+        let s1 = *rng.pick(&se);
+        let s2 = *rng.pick(&se);
+        let v = *rng.pick(&iv);
+        let w = *rng.pick(&sv);
+        let line = match rng.below(36) {
+            0..=4 => format!("{} = {}", v, i1),
+            5..=8 => format!("{} = {}", w, s1),
+            9 => format!("{} = {} + {} * {}", v, i1, i2, i1),
+            10 => format!("{} = {} / {}", v, i1, i2),
+            11 => format!("{} = {} + {}", w, s1, s2),
+            12 => format!("PRINT {}; {}; {}", i1, s1, v),
+            13 => format!("IF {} > {} THEN {} = {} ELSE {} = {}", i1, i2, v, i1, w, s1),
+            14 => format!("IF {} = {} THEN PRINT \"eq\"", s1, s2),
+            15 => format!("FOR I% = {} TO {}\n{} = {}\nNEXT", i1, i2, v, i2),
+            16 => format!("FOR S! = 1 TO 2 STEP {}\nPRINT S!;\nIF S! > 5 THEN END\nNEXT", rng.pick(&["0.5", "0.25", "-1", "I%"])),
+            17 => format!("SELECT CASE {}\nCASE 1 TO 3\nPRINT \"a\"\nCASE IS > {}\nPRINT \"b\"\nCASE ELSE\nEND SELECT", i1, i2),
+            18 => format!("SELECT CASE {}\nCASE \"a\", \"b\"\nPRINT 1\nCASE ELSE\nPRINT 2\nEND SELECT", s1),
+            19 => format!("WHILE I% < 3\nI% = I% + 1\n{} = {}\nWEND", v, i1),
+            20 => format!("Sb1 {}, {}, ({})", rng.pick(&["I%", "A1%(1)", "P.X", "GS%", "A1%(I%)", "PA(1).X"]), rng.pick(&["T$", "A2$(1, 2)", "GA$(1)", "A2$(I%, 0)"]), i1),
+            21 => format!("Sb2 A1%(), P, {}", i1),
+            22 => format!("Sb1 ({}), ({}), ({})", rng.pick(&["I%", "P.X", "3", "70000", "-1"]), w, i2),
+            23 => "Sb3".to_string(),
+            24 => format!("READ {}", rng.pick(&["I%", "T$", "D#", "P.X", "A1%(2)", "FS"])),
+            25 => format!("REDIM RD%({})\nRD%(1) = {}", i1, i2),
+            26 => format!("POKE VARPTR({}), {}", rng.pick(&["I%", "A1%(1)", "P.X", "J&"]), i1),
+            27 => format!("DEF SEG = VARSEG({})\nPRINT PEEK(VARPTR({}))\nDEF SEG", rng.pick(&["A1%(1)", "I%", "A1%(3)"]), rng.pick(&["A1%(1)", "I%", "A1%(2)"])),
+            28 => format!("P = PA({})", rng.pick(&["1", "2", "I%", "3"])),
+            29 => format!("PA({}) = P", rng.pick(&["1", "2", "I%", "0"])),
+            30 => format!("LSET {} = {}", rng.pick(&["T$", "FS"]), s1),
+            31 => format!("GOSUB Gs1"),
+            32 => format!("PRINT USING {}; {}; {}", rng.pick(&["\"##.#\"", "\"\\ \\\"", "\"!\"", "\"#\"", "T$"]), i1, s1),
+            33 => format!("{} = Fn1%({}) + Fn2#({}, {})", v, i1, i2, s1),
+            34 => format!("ENVIRON {}", s1),
+            _ => format!("{} = CVD(MKD$({}))", v, i1),
+        };
+        l.push(line);
+    }
+    l.push("END".into());
+    l.push("Gs1:\nI% = I% + 1\nRETURN".into());
+    if handler {
+        l.push(format!("Hnd:\n{}", rng.pick(&["RESUME NEXT", "PRINT \"E\"; ERR\nRESUME NEXT"])));
+    }
+    l.push("SUB Sb1 (A%, B$, C#)\nA% = A% + 1\nB$ = B$ + \"!\"\nGS% = GS% + 1\nEND SUB".into());
+    l.push("SUB Sb2 (Arr%(), Q AS Pt, N%)\nArr%(1) = N%\nQ.X = N%\nQ.N = \"abcdefgh\"\nIF N% > 2 THEN EXIT SUB\nArr%(N% + 2) = 1\nEND SUB".into());
+    l.push("SUB Sb3 STATIC\nK% = K% + 1\nPRINT K%;\nEND SUB".into());
+    l.push("FUNCTION Fn1% (X%)\nIF X% > 100 THEN EXIT FUNCTION\nFn1% = X% * 2\nEND FUNCTION".into());
+    l.push("FUNCTION Fn2# (A!, B$)\nFn2# = A! + LEN(B$)\nEND FUNCTION".into());
+    l.push("FUNCTION Fn3$ (B$)\nFn3$ = B$ + B$\nEND FUNCTION".into());
+    let text = l.join("\n") + "\n";
+    RawCase {
+        text,
+        stdin: vec![],
+        files: vec![],
+        plan: vec![],
+        origin: "W-REP generator".into(),
     }
 }
 
